@@ -10,3 +10,14 @@ mod migration;
 mod recover;
 pub mod service;
 mod sync;
+
+// Verification hook (H1): re-export the private coordinator building blocks so that
+// an out-of-tree harness can drive single coordinator rounds. Not compiled by default.
+#[cfg(feature = "verif")]
+pub mod verif_export {
+    pub use super::core::*;
+    pub use super::detector::*;
+    pub use super::migration::*;
+    pub use super::recover::*;
+    pub use super::sync::*;
+}
